@@ -155,6 +155,7 @@ def run_scenario(scenario, chooser=None, config_kwargs=None, max_steps=100000,
     from s3transfer.manager import TransferManager, TransferConfig
     from s3transfer.utils import OSUtils
     run = Run()
+    run.cfg_kwargs = dict(config_kwargs or {})
     sched = core.Sched(chooser=chooser, max_steps=max_steps, trace=run.trace)
     I = instr.Instr(sched).install()
     tmpdir = tempfile.mkdtemp(prefix='verif-sched-')
@@ -183,6 +184,7 @@ def run_scenario(scenario, chooser=None, config_kwargs=None, max_steps=100000,
         env.manager, env.client, env.tmpdir, env.I, env.sched, env.run = manager, client, tmpdir, I, sched, run
         env.config = cfg
         env.futures = {}
+        env.execs = execs
 
         def sub(**kw):
             return RecordingSubscriber(I, **kw)
